@@ -79,7 +79,7 @@ static bool add_identity(SSL_CTX *ctx, int kind, std::string *err) {
 }
 static void add_cas(SSL_CTX *ctx, unsigned mask) {
     X509_STORE *st = SSL_CTX_get_cert_store(ctx);
-    for (int k = 1; k <= 7; k++) {
+    for (int k = 1; k <= 9; k++) {
         if (!(mask & (1u << k))) { continue; }
         struct vsim_keymat m; if (!vsim_keymat(k, &m)) { continue; }
         const unsigned char *p = m.ca, *end = m.ca + m.caLen;
@@ -110,6 +110,7 @@ OsslShared *ossl_shared_new(const OsslCfg &cfg, std::string *err) {
     if (!cfg.tickets) { opts |= SSL_OP_NO_TICKET; }
     if (!cfg.ems) { opts |= SSL_OP_NO_EXTENDED_MASTER_SECRET; }
     SSL_CTX_set_options(ctx, opts);
+    SSL_CTX_set_mode(ctx, SSL_MODE_NO_AUTO_CHAIN);   // send exactly the configured chain (the trust store also holds CAs for the peer's certificates, some sharing a subject name and key with ours)
     SSL_CTX_set_info_callback(ctx, info_cb);
     if (cfg.server) {
         static const unsigned char sidctx[] = "vsim-c10";
